@@ -26,6 +26,11 @@ CHECKS = {
          "Random search over cascading instruction sets/programs x iteration budgets x both optimisation switches; every success is checked to be a genuine fixed point (independent of which fixed point was found). Exploration: budgets and programs are sampled (thorough runs all 15 budgets x 4 switch combinations per program).",
          "Span order = item order (checked); the reference matcher/evaluator as in C01.",
          "6/C02"),
+ "C11": ("exploration",
+         "exhaustive enumeration of output lengths x independent per-format decoders (round trip), plus proptest-generated multi-block programs",
+         "Every single-block output length 0..4096 bits (quick: 0..520 and all boundary residues) with random, all-ones and all-zeros content is formatted in 19 format spellings and decoded by an independent decoder per format; multi-block outputs are sampled. Within the enumerated lengths the bit-carrying behaviour of each format is decided; contents are sampled.",
+         "Decoders written from each format's public definition; Intel HEX block starts restricted to address-unit boundaries (all the format can express); outputs above 4096 bits (e.g. 16-bit Intel HEX address wrap) not explored.",
+         "6/C11"),
  "C08": ("exploration",
          "metamorphic/differential property testing: the same job under the four optimisation-switch combinations x five iteration budgets must agree on success, bits and symbols",
          "Differential run of the real code against itself over generated (size-static and cascading) programs, the whole test corpus and token-mutated corpus programs. No model is trusted; exploration of a sampled program space.",
